@@ -14,7 +14,7 @@ Every method / function name must be in the whitelist PRELUDE below (mapped to
 """
 import os, re, json, hashlib
 
-REPO = "/repo"
+REPO = os.environ.get("VERIF_REPO", "/repo")
 ROOT = os.path.dirname(os.path.dirname(os.path.abspath(__file__)))
 GEN_DIR = os.path.join(ROOT, "lean", "Dashu", "Gen")
 
